@@ -164,6 +164,8 @@ type Upstream struct {
 	Transparent bool   `json:"transparent"`
 	Retry       bool   `json:"retry"` // dead host first, then the live one
 	Rules       []Rule `json:"rules"`
+	MaxConns    int    `json:"max_conns,omitempty"`       // pressure sub-check only
+	TryMs       int    `json:"try_duration_ms,omitempty"` // pressure sub-check only: retries without a dead host
 }
 
 type Req struct {
@@ -191,6 +193,12 @@ func casketfile(u Upstream) string {
 	fmt.Fprintf(&sb, " %s%s {\n", backend.URL, u.Base)
 	if u.Retry {
 		sb.WriteString("\t\tpolicy first\n\t\ttry_duration 2s\n\t\ttry_interval 5ms\n\t\tfail_timeout 30s\n")
+	}
+	if u.MaxConns > 0 {
+		fmt.Fprintf(&sb, "\t\tmax_conns %d\n", u.MaxConns)
+	}
+	if u.TryMs > 0 && !u.Retry {
+		fmt.Fprintf(&sb, "\t\ttry_duration %dms\n\t\ttry_interval 2ms\n", u.TryMs)
 	}
 	if u.Without != "" {
 		fmt.Fprintf(&sb, "\t\twithout %s\n", u.Without)
@@ -640,11 +648,17 @@ func genScript(t *rapid.T, lb string) BackendScript {
 		v := rapid.SampledFrom([]string{"r1", "r2", "a=b; Path=/", "old thing", "no-cache"}).Draw(t, fmt.Sprintf("%sv%d", lb, i))
 		s.Header = append(s.Header, [2]string{k, v})
 	}
-	switch rapid.IntRange(0, 4).Draw(t, lb+"hop") {
+	switch rapid.IntRange(0, 5).Draw(t, lb+"hop") {
 	case 0:
 		s.Header = append(s.Header, [2]string{"Keep-Alive", "timeout=9"}, [2]string{"Proxy-Authenticate", "Basic realm=x"})
 	case 1:
 		s.Header = append(s.Header, [2]string{"Connection", "X-Bhop"}, [2]string{"X-Bhop", "backend-hop"})
+	case 2:
+		// the backend closes the connection after this response
+		s.Header = append(s.Header, [2]string{"Connection", "close"})
+		// ("close" together with other names is not generated: Go's transport deletes the whole
+		// Connection field of a response that says close before casket sees it, so the names
+		// listed next to it cannot be known to any proxy built on net/http)
 	}
 	if s.Status != 204 {
 		nc := rapid.IntRange(0, 3).Draw(t, lb+"nc")
@@ -763,11 +777,19 @@ type PressureCase struct {
 	ReqLens  []int `json:"req_lens"`  // request body lengths (Content-Length framing), cycled
 	RespLens []int `json:"resp_lens"` // backend body lengths, cycled; written in two chunks without flush
 	Chunked  bool  `json:"chunked"`   // request bodies use chunked framing instead
+	// Contended: max_conns below the number of clients, retries on, and header rules that are not idempotent,
+	// so that requests are bounced at the connection cap and tried again
+	Contended bool `json:"contended,omitempty"`
+	MaxConns  int  `json:"max_conns,omitempty"`
 }
 
 func runPressure(c *PressureCase) error {
 	setupBackend()
-	inst, e := srv.Start(casketfile(Upstream{From: "/"}), "")
+	up := Upstream{From: "/"}
+	if c.Contended {
+		up = Upstream{From: "/", Base: "/base", MaxConns: c.MaxConns, TryMs: 20000, Rules: []Rule{{Dir: "upstream", Op: "add", Name: "X-Add", Value: "v"}, {Dir: "upstream", Op: "set", Name: "X-Set", Value: "s"}}}
+	}
+	inst, e := srv.Start(casketfile(up), "")
 	if e != nil {
 		srv.Stop(inst)
 		return fmt.Errorf("HARNESS: start: %v", e)
@@ -800,6 +822,8 @@ func runPressure(c *PressureCase) error {
 					errs <- fmt.Errorf("%s: no well-formed response: %v", desc, err)
 				case len(atts) != 1:
 					errs <- fmt.Errorf("%s: backend saw the request %d times", desc, len(atts))
+				case c.Contended && (atts[0].Path != "/base/p" || !sameMulti(atts[0].Header["X-Add"], []string{"v"}) || !sameMulti(atts[0].Header["X-Set"], []string{"s"})):
+					errs <- fmt.Errorf("%s (max_conns %d, retries on): backend saw path %q, X-Add %q, X-Set %q; want /base/p, [v], [s] exactly once", desc, c.MaxConns, atts[0].Path, atts[0].Header["X-Add"], atts[0].Header["X-Set"])
 				case !bytes.Equal(atts[0].Body, makeBody(rl)):
 					errs <- fmt.Errorf("%s: backend received %d body bytes that differ from the %d sent", desc, len(atts[0].Body), rl)
 				case resp.Status != 200 || !bytes.Equal(resp.Body, wb):
@@ -828,8 +852,15 @@ func TestPressure(t *testing.T) {
 		c := &PressureCase{Clients: rapid.SampledFrom([]int{8, 16, 32, 64}).Draw(t, "clients"), PerConn: rapid.IntRange(5, 30).Draw(t, "per"), Chunked: rapid.IntRange(0, 4).Draw(t, "chunked") == 0}
 		c.ReqLens = rapid.SliceOfN(rapid.SampledFrom([]int{1, 100, 4096, 32767, 32768, 32769, 65536, 100000}), 1, 4).Draw(t, "reqlens")
 		c.RespLens = rapid.SliceOfN(rapid.SampledFrom([]int{1, 100, 2048, 4096, 8192, 32768, 65537, 200000}), 1, 4).Draw(t, "resplens")
+		if rapid.IntRange(0, 2).Draw(t, "contended") == 0 {
+			c.Contended = true
+			c.Clients = rapid.SampledFrom([]int{4, 8, 16}).Draw(t, "cclients")
+			c.MaxConns = rapid.IntRange(1, 3).Draw(t, "maxconns")
+			c.RespLens = []int{100, 2048}
+			c.ReqLens = []int{1, 4096}
+		}
 		err := runPressure(c)
-		vt.Record("pressure", c, c.Clients >= 16, fmt.Sprintf("clients=%d", c.Clients))
+		vt.Record("pressure", c, c.Clients >= 16 || c.Contended, fmt.Sprintf("clients=%d", c.Clients))
 		vt.Extra("pressure", "exchanges", c.Clients*c.PerConn)
 		vt.Check(t, "pressure", c, err)
 	})
